@@ -10,14 +10,23 @@ use crate::obs::{self, Recorder};
 use crate::world::*;
 
 #[derive(Clone, Debug, Deserialize)]
-pub struct Step {
+pub struct Step<P = Post> {
     pub a: String,
     #[serde(default)]
     pub t: String,
     #[serde(default)]
     pub x: Vec<Value>,
-    #[serde(default)]
-    pub post: Option<std::sync::Arc<Post>>,
+    #[serde(default = "no_post")]
+    pub post: Option<std::sync::Arc<P>>,
+}
+fn no_post<P>() -> Option<std::sync::Arc<P>> {
+    None
+}
+impl<P> Step<P> {
+    /// the same step without the model state
+    pub fn plain(&self) -> Step<Post> {
+        Step { a: self.a.clone(), t: self.t.clone(), x: self.x.clone(), post: None }
+    }
 }
 
 #[derive(Clone, Debug, Deserialize)]
@@ -47,9 +56,9 @@ pub struct Post {
 }
 
 #[derive(Clone, Debug, Deserialize)]
-pub struct PathRec {
+pub struct PathRec<P = Post> {
     pub id: u64,
-    pub steps: Vec<Step>,
+    pub steps: Vec<Step<P>>,
 }
 
 #[derive(Clone, Debug, Serialize, Default)]
